@@ -419,10 +419,13 @@ Definition decode_sopp (w0 : N) (i : inst) : res inst :=
   else ROk i.
 
 Definition decode_vopc (len w0 w1 : N) (i : inst) : res inst :=
+  let r := i_row i in
   s0 <- getop (extract_bits w0 0 8) ;;
   '(s0, sz) <- literal len w1 s0 (i_size i) (lit_size i) ;;
+  let s0 := cnt64 (r_src0w r) s0 in
   let bits := extract_bits w0 9 16 in
-  ROk (i <| i_size := sz |> <| i_src0 := Some s0 |> <| i_src1 := Some (new_vreg bits bits 0) |>).
+  let s1 := cnt64 (r_src1w r) (new_vreg bits bits 0) in
+  ROk (i <| i_size := sz |> <| i_src0 := Some s0 |> <| i_src1 := Some s1 |>).
 
 Definition decode_sopc (len w0 w1 : N) (i : inst) : res inst :=
   s0 <- getop (extract_bits w0 0 7) ;;
